@@ -806,9 +806,18 @@ func TestVerifC10Load(t *testing.T) {
 		}
 
 		parses, nullPaths := c10ParseYAML(plain)
-		if c10Known(c10KeyEnvNullPath) {
-			if n := c10DropEnvOnNullPaths(env, nullPaths); n > 0 {
-				rec.Excluded(c10KeyEnvNullPath)
+		if c10Known(c10KeyEnvEmptyList) {
+			if n := c10DropEmptyOptionalLists(env); n > 0 {
+				rec.Excluded(c10KeyEnvEmptyList)
+			}
+		}
+		envOnNullPath := false
+		for k := range env {
+			for _, prefix := range []string{"MTX_PATHS_", "RTSP_PATHS_"} {
+				if strings.HasPrefix(k, prefix) {
+					mapKey, _, _ := strings.Cut(k[len(prefix):], "_")
+					envOnNullPath = envOnNullPath || nullPaths[strings.ToLower(mapKey)]
+				}
 			}
 		}
 
@@ -851,6 +860,9 @@ func TestVerifC10Load(t *testing.T) {
 		}
 		if len(env) > 0 {
 			classes = append(classes, "with-env")
+		}
+		if envOnNullPath {
+			classes = append(classes, "env-on-empty-bodied-path")
 		}
 		for _, f := range faults {
 			if strings.HasPrefix(f, "sem:") {
@@ -937,53 +949,67 @@ func TestVerifC10RegressShortEncryptedFile(t *testing.T) {
 	}
 }
 
-// open finding c10-env-on-null-path: a path declared with an empty body ("cam1:") plus an environment variable
-// addressing that path makes the environment loader dereference the nil map entry.
-const c10KeyEnvNullPath = "c10-env-on-null-path"
+// c10KeyEnvEmptyList: an empty environment value for a parameter declared as pointer to a list (the deprecated
+// webrtcICEHostNAT1To1IPs / webrtcICEServers) makes the environment loader call Set on a nil pointer's target.
+const c10KeyEnvEmptyList = "c10-env-empty-optional-list"
 
 // c10Known: listed as known by the driver, or (development / sensitivity runs) named in $VERIF_C10_ASSUME_KNOWN.
 func c10Known(key string) bool {
 	return kit.Known(key) || strings.Contains(os.Getenv("VERIF_C10_ASSUME_KNOWN"), key)
 }
 
-// c10DropEnvOnNullPaths removes the assignments that address a path with an empty body (known finding
-// c10-env-on-null-path) and reports how many were removed.
-func c10DropEnvOnNullPaths(env map[string]string, null map[string]bool) int {
-	if len(null) == 0 {
-		return 0
+// c10OptionalListKeys: upper-case names of the top-level parameters declared as pointer to a list of scalars.
+func c10OptionalListKeys() map[string]bool {
+	out := map[string]bool{}
+	rt := reflect.TypeOf(Conf{})
+	for i := 0; i < rt.NumField(); i++ {
+		f := rt.Field(i)
+		if f.Type.Kind() == reflect.Pointer && f.Type.Elem().Kind() == reflect.Slice && f.Type.Elem().Elem().Kind() != reflect.Struct {
+			if _, custom := reflect.New(f.Type.Elem()).Interface().(interface{ UnmarshalEnv(string, string) error }); !custom {
+				out[strings.ToUpper(cgJSONName(f))] = true
+			}
+		}
 	}
+	return out
+}
+
+// c10DropEmptyOptionalLists removes empty-valued assignments on such parameters (known finding
+// c10-env-empty-optional-list) and reports how many were removed.
+func c10DropEmptyOptionalLists(env map[string]string) int {
+	names := c10OptionalListKeys()
 	n := 0
-	for k := range env {
-		for _, prefix := range []string{"MTX_PATHS_", "RTSP_PATHS_"} {
-			if !strings.HasPrefix(k, prefix) {
-				continue
-			}
-			mapKey, _, _ := strings.Cut(k[len(prefix):], "_")
-			// the loader also matches longer keys sharing the prefix (ALL / ALL_OTHERS): compare every prefix cut at '_'
-			rest := k[len(prefix):]
-			cands := []string{mapKey}
-			for i := 0; i < len(rest); i++ {
-				if rest[i] == '_' {
-					cands = append(cands, rest[:i])
-				}
-			}
-			cands = append(cands, rest)
-			for _, c := range cands {
-				if null[strings.ToLower(c)] {
-					delete(env, k)
-					n++
-					break
-				}
-			}
+	for k, v := range env {
+		_, name, ok := strings.Cut(k, "_")
+		if ok && v == "" && names[name] && (strings.HasPrefix(k, "MTX_") || strings.HasPrefix(k, "RTSP_")) {
+			delete(env, k)
+			n++
 		}
 	}
 	return n
 }
 
-func TestVerifC10RegressEnvOnNullPath(t *testing.T) {
-	if c10Known(c10KeyEnvNullPath) {
-		t.Skip("listed as known finding " + c10KeyEnvNullPath)
+func TestVerifC10RegressEnvEmptyOptionalList(t *testing.T) {
+	if c10Known(c10KeyEnvEmptyList) {
+		t.Skip("listed as known finding " + c10KeyEnvEmptyList)
 	}
+	if len(c10OptionalListKeys()) == 0 {
+		t.Skip("no parameter is declared as pointer to a list any more")
+	}
+	for name := range c10OptionalListKeys() {
+		for _, prefix := range []string{"MTX_", "RTSP_"} {
+			for _, doc := range []string{"", "paths:\n  all_others:\n"} {
+				c, err, p, st := c10LoadBytes(t, []byte(doc), map[string]string{prefix + name: ""})
+				if v := c10Judge(c, err, p, st); v != "" {
+					t.Errorf("file %q with %s%s= : %s", doc, prefix, name, c10ClipS(v, 700))
+				}
+			}
+		}
+	}
+}
+
+// found by this check, fixed by 3bfbeaf: a path declared with an empty body ("cam1:") plus an environment
+// variable addressing that path made the environment loader dereference the nil map entry.
+func TestVerifC10RegressEnvOnNullPath(t *testing.T) {
 	for _, doc := range []string{"paths:\n  cam1:\n", "paths:\n  cam1: null\n", "paths: {cam1: ~}\n"} {
 		for _, env := range []map[string]string{{"MTX_PATHS_CAM1_SOURCE": "rtsp://host/p"}, {"MTX_PATHS_CAM1_RECORD": "yes"}, {"RTSP_PATHS_CAM1_RECORD": "yes"}, {"MTX_PATHS_CAM1": ""}} {
 			c, err, p, st := c10LoadBytes(t, []byte(doc), env)
